@@ -499,3 +499,21 @@ package unmarshal
 //@     go: case <-time.After(2 * time.Second): confirm("ns does not return within 2 s for this timestamp")
 //@     go: }
 //@   end
+
+// The size of a profile - what the 1 MiB chunking of onProfile compares - is the fixed
+// parts plus, for every sample-type pair and every tag, the two lengths ADDED: a
+// label of a few kilobytes must not count as megabytes (the chunking branch drops the
+// profile and leaves the shared batch with rows missing in some columns).
+//@ spec fn profFixed(p *parserDoer) int = 16 + len(p.profile.Ptype) + len(p.profile.ServiceName) + len(p.profile.PeriodType) + len(p.profile.PeriodUnit) + len(p.profile.PayloadType) + len(p.profile.Payload)
+//@ func (*parserDoer).calculateProfileSize [C05]
+//@   flag checks=-assert,-index
+//@   modifies nothing
+//@   loop 1:
+//@     invariant size >= 0 && rangeindex >= -1 && rangeindex + 1 <= len(p.profile.SamplesTypesUnits)
+//@     invariant rangeindex == -1 ==> size == profFixed(p)
+//@     step each-sample-type-adds-its-two-lengths: size == prev(size) + len(p.profile.SamplesTypesUnits[rangeindex].Str1) + len(p.profile.SamplesTypesUnits[rangeindex].Str2)
+//@   loop 2:
+//@     invariant size >= 0 && rangeindex >= -1 && rangeindex + 1 <= len(p.profile.Tags)
+//@     invariant len(p.profile.SamplesTypesUnits) == 0 && rangeindex == -1 ==> size == profFixed(p)
+//@     step each-tag-adds-its-two-lengths: size == prev(size) + len(p.profile.Tags[rangeindex].Str1) + len(p.profile.Tags[rangeindex].Str2)
+//@   check fixed-parts-counted-once: len(p.profile.SamplesTypesUnits) == 0 && len(p.profile.Tags) == 0 ==> result == profFixed(p)
